@@ -62,7 +62,7 @@ ASSUMPTIONS = [
     "n <= 5 (7 thorough) bins in 1D, axes of 1..3 bins in ND, d <= 4",
 ]
 BOUNDS = {
-    "quick": "1D n=1..5 x 6 binning kinds x keep_missed x int/float, full expression alphabet; 2D (3,2) and (2,3) full per-axis alphabets, (1,3) full x medium, (2,2) medium; 3D (2,3,2) medium, (1,2,2) medium/thin",
+    "quick": "1D n=1..5 x 6 binning kinds x keep_missed x int/float, full expression alphabet; 2D (3,2) and (2,3) full per-axis alphabets, (1,3) full x medium, (2,2) medium; 3D (2,3,2) and (3,2,2) medium, (1,2,2) medium/thin",
     "thorough": "1D n up to 7; 2D (3,2) both source variants,(2,3),(1,3),(4,3),(2,2) full; 3D (2,3,2),(3,2,2),(3,2,3) medium, (1,2,2) full/medium; 4D (2,2,3,2) thin and (2,1,2,2) medium/thin",
 }
 BUDGET = {"quick": 240, "thorough": 3000}
@@ -753,6 +753,7 @@ ND_PLAN = {
         ((2, 3), "B", ["full", "full"]),
         ((2, 2), "B", ["medium", "medium"]),
         ((2, 3, 2), "A", ["medium", "medium", "medium"]),
+        ((3, 2, 2), "B", ["medium", "medium", "medium"]),
         ((1, 2, 2), "B", ["medium", "medium", "thin"]),
     ],
     "thorough": [
